@@ -193,8 +193,10 @@ type Validator struct{ ID int }
 
 func V(id int) tfsdk.AttributeValidator { return Validator{ID: id} }
 
-func (v Validator) Description(context.Context) string         { return fmt.Sprintf("support.V(%d)", v.ID) }
-func (v Validator) MarkdownDescription(context.Context) string { return fmt.Sprintf("support.V(%d)", v.ID) }
+func (v Validator) Description(context.Context) string { return fmt.Sprintf("support.V(%d)", v.ID) }
+func (v Validator) MarkdownDescription(context.Context) string {
+	return fmt.Sprintf("support.V(%d)", v.ID)
+}
 func (v Validator) Validate(context.Context, tfsdk.ValidateAttributeRequest, *tfsdk.ValidateAttributeResponse) {
 }
 
